@@ -30,10 +30,8 @@ def plan(tier, seed):
 
 def make_case(seed, shard, i):
     r = random.Random(f"{seed}:C07:{shard}:{i}")
-    g = lang.Gen(r, FEATURES)
-    prog = g.program()
+    prog, rows = lang.gen_case(r, FEATURES)
     prog["comment"] = lang.random_mode_comment(r, 0.45)
-    rows = lang.data_rows(r)
     return lang.tolist(prog), rows
 
 
